@@ -28,7 +28,7 @@ MARK = '@'
 WIDE = ['中', 'あ', 'Ａ']          # double-width (in uc.c dwchars and everywhere else)
 NARROW2 = ['é', 'ß', 'λ']       # single-width, multi-byte
 ATTR_SHIFT = 1 << 21
-WFIX = False
+WFIX = True
 NQUICK = 260
 
 # --------------------------------------------------------------------------------------------
@@ -736,7 +736,7 @@ def wfix_correspondence(ctx, model, cases, results):
             continue
         c = cases[ci]
         last = bytes.fromhex(c['atoms'][i - 1])
-        if not is_plain_motion(last) or is_sticky_atom(last):
+        if not is_plain_motion(last) or is_sticky_atom(last) or last.endswith(b'|'):
             continue
         h, cols = c['rows'] - 1, c['cols']
         # the found top/left must be the only explanation on both sides (blank screens are ambiguous)
